@@ -145,6 +145,32 @@ def run(ctx, bt):
     from .. import whole_run as W
     # complete backtests of program trees (flat and nested, shadow copies included) executed end to end by the model
     W.whole_run_protocol(ctx, bt, ctx.scale(15, 300), "whole-run[C01]", footprint_fields=FOOT_FIELDS)
+    run_program_rows(ctx, bt, ctx.scale(60, 1200))
+
+
+def run_program_rows(ctx, bt, n):
+    """generated programs through Backtest.run (stock algos and user algos that trade with update=False and leave the closing update
+    to the loop): whenever a tree leaves a date, the rows recorded for that date are the state it leaves behind; at the end of the
+    run, balance and rows of the last date"""
+    from .. import monitors as M
+    from ..runs_run import run_programs
+    with M.eod_watch(bt) as found:
+        def checker(ctx_, bt_, spec, b, log):
+            rd = {"spec": spec, "mode": "program"}
+            ctx.count("program-rows:dates-left", max(0, len(b.dates) - 1))
+            for root, date, node, field, rec, live in found[:3]:
+                ctx.violation("C01/row-not-end-of-date:" + field, "%s left %s with %s %s = %r, but the row recorded for that date says %r"
+                              % (root, date, node, field, live, rec), rd)
+            del found[:]
+            try:
+                v = check_tree(bt, b.strategy, "end of run") + check_rows(bt, b.strategy, "end of run")
+            except Exception as e:  # noqa
+                ctx.count("program-rows:read-raised:" + E.classify_exc(e))
+                return
+            for key, msg in v:
+                ctx.violation("C01/" + key + (":root-bankrupt" if b.strategy.bankrupt else ""), msg, rd)
+        run_programs(ctx, bt, n, checker)
+        del found[:]
 
 
 def search(ctx, bt):
@@ -153,6 +179,14 @@ def search(ctx, bt):
 
 def replay(bt, data, ctx):
     from ..engine_run import run_history_observed, model_compare
+    if data["case"].get("mode") == "program":
+        from ..runs_run import run_one
+        from .. import monitors as M
+        with M.eod_watch(bt) as found:
+            run_one(ctx, bt, data["case"]["spec"], lambda *a: None)
+            for root, date, node, field, rec, live in found[:3]:
+                ctx.violation("C01/row-not-end-of-date:" + field, "%s left %s with %s %s = %r, row says %r" % (root, date, node, field, live, rec), data["case"])
+        return
     spec = data["case"]["spec"]
     steps, root, dates = run_history_observed(bt, spec, ctx.rng, len(spec["ops"]), [Monitor(ctx)], ctx)
     model_compare(ctx, bt, [(spec, i, st) for i, st in enumerate(steps)], FOOT_FIELDS, None, "step[C01]")
